@@ -245,6 +245,49 @@ var ok=arr.every(function(e,i){ return i==0 || arr[i-1].k<e.k || (arr[i-1].k==e.
 var objs=['b','a','c'].map(function(s){ return {toString(){ return s; }}; }).sort().join('');
 print('sort', ok, arr.map(function(e){ return e.k; }).join(''), objs, [5,25,100,1].sort().join(','), [,3,undefined,1].sort().length);
 "# },
+    Kernel { name: "d-key-order", kind: 'd', src: r#"
+var o={}; var ks=['b','10','a','2','-1','1.5','01','z',String(2**32),'4294967294','x'+$A]; for (var i=0;i<ks.length;i++) o[ks[i]]=i; o[Symbol('s1')]=1; o[Symbol.for('reg')]=2; delete o.a; o.a='re'; o[5]=5;
+var proto={p1:1, 3:'p3', b:'shadowed'}; var c=Object.create(proto); c.own1=1; c[7]=7; c.own2=2; var fi=[]; for (var k in c) fi.push(k);
+var wide={}; for (var i=0;i<40+$B;i++) wide['k'+((i*7)%41)]=i; for (var i=0;i<10;i++) delete wide['k'+i*3]; wide.k3='again';
+print('d-keys', Object.keys(o).join(','), Reflect.ownKeys(o).length, JSON.stringify(o), fi.join(','), Object.keys(wide).slice(0,12).join(','), Object.getOwnPropertySymbols(o).map(String).join('|'));
+print('d-keys2', Object.keys('str').join(''), Object.keys([9,,8]).join(''), Object.keys((function(){ return arguments; })(1,2)).join(''), Object.keys(new Uint8Array(3)).join(''), Object.getOwnPropertyNames(function f(a,b){}).join(','), Object.getOwnPropertyNames(class K { static s(){} }).join(','));
+"# },
+    Kernel { name: "d-map-set-order", kind: 'd', src: r#"
+var m=new Map(), s=new Set(), objs=[]; for (var i=0;i<20+$A;i++){ var k=i%3==0 ? {i:i} : (i%3==1 ? 'k'+i : i*1.5); objs.push(k); m.set(k,i); s.add(k); }
+for (var i=0;i<objs.length;i+=4){ m.delete(objs[i]); s.delete(objs[i]); } for (var i=0;i<objs.length;i+=8){ m.set(objs[i],'back'+i); s.add(objs[i]); }
+m.set(NaN,'nan'); m.set(-0,'zero'); m.set(0,'zero2'); s.add(NaN); s.add(NaN);
+var wm=new WeakMap(); var hits=0; for (var i=0;i<objs.length;i++) if (typeof objs[i]=='object'){ wm.set(objs[i], i); } for (var i=0;i<objs.length;i++) if (typeof objs[i]=='object' && wm.get(objs[i])===i) hits++;
+print('d-mapset', [...m.values()].join(','), [...s].map(function(x){ return typeof x=='object' ? 'o'+x.i : x; }).join(','), m.size, s.size, hits, Object.is([...m.keys()].filter(function(k){ return k===0; })[0], 0));
+"# },
+    Kernel { name: "d-sort", kind: 'd', src: r#"
+var a=[]; for (var i=0;i<60+$A;i++) a.push({k:(i*17+$B)%5, i:i, s:'s'+((i*31)%13)});
+var byK=a.slice().sort(function(x,y){ return x.k-y.k; }).map(function(e){ return e.i; }).join(',');
+var byS=a.map(function(e){ return e.s; }).sort().join(',');
+var weird=a.slice(0,20).sort(function(x,y){ return (x.i*7+y.i*3)%3-1; }).map(function(e){ return e.i; }).join(',');
+var mixed=[10,9,1,'b','a',undefined,null,,{toString(){ return 'm'; }},-1,2n].sort().map(String).join(',');
+var ta=new Float64Array([3,-0,0,NaN,-Infinity,1e-300]).sort().join(',');
+print('d-sort', byK, byS, weird, mixed, ta, ['B','a','C'].sort(function(x,y){ return x.localeCompare(y); }).join(''));
+"# },
+    Kernel { name: "d-errors-strings", kind: 'd', src: r#"
+var msgs=[]; function t(f){ try { f(); msgs.push('no-throw'); } catch(e){ msgs.push(e.name+': '+e.message); } }
+t(function(){ null.x; }); t(function(){ undefined(); }); t(function(){ ({}).x.y; }); t(function(){ new (class { constructor(){ return 1; } })(); }); t(function(){ [].reduce(function(){}); }); t(function(){ new Array(-1); }); t(function(){ 'x'.repeat(-1); });
+t(function(){ Symbol()+''; }); t(function(){ BigInt(1.5); }); t(function(){ 1n+1; }); t(function(){ JSON.parse('{'); }); t(function(){ new Proxy({}, null); }); t(function(){ Object.defineProperty(Object.freeze({}), 'a', {value:1}); }); t(function(){ x$A; }); t(function(){ let q=q; }); t(function(){ class A extends null { constructor(){ super(); } } new A(); }); t(function(){ decodeURIComponent('%'); }); t(function(){ (1).toFixed(200); });
+function named(a, b=2, ...c){ /* body */ return a; } class K$B { #p=1; static s(){ return 1; } get g(){ return this.#p; } }
+print('d-errors', msgs.join(' ; '));
+print('d-fnstr', String(named), String(K$B).length, String(Math.max), String(function(){}), String(()=>1), String(async function*ag(){}), String(Symbol('d')), String([1,[2,[3]]]), String({}), String(new Date(0).getTime()), typeof new Error('s').stack);
+"# },
+    Kernel { name: "d-templates-identity", kind: 'd', src: r#"
+function tag(s){ return s; } function site(){ return tag`a${1}b`; } var t1=site(), t2=site(), t3=tag`a${1}b`;
+var syms=[Symbol(), Symbol('x'), Symbol.for('x'), Symbol.for('x'), Symbol.iterator]; var o={}; for (var i=0;i<syms.length;i++) o[syms[i]]=i;
+var ids=new Map(); function id(x){ if (!ids.has(x)) ids.set(x, ids.size); return ids.get(x); }
+var fns=[]; for (var i=0;i<3;i++) fns.push(function(){ return i; }); var objs=[{}, {}, [], [], function(){}, function(){}];
+print('d-identity', t1===t2, t1===t3, Object.isFrozen(t1), t1.raw.length, syms.map(id).join(''), Object.getOwnPropertySymbols(o).length, objs.map(id).join(''), fns.map(function(f){ return f(); }).join(''), [NaN].includes(NaN), [NaN].indexOf(NaN), Object.is(-0, +0), typeof id);
+"# },
+    Kernel { name: "d-number-formatting", kind: 'd', src: r#"
+var xs=[]; var v=0.1*$B; for (var i=0;i<25;i++){ v=v*1.7+0.3/(i+1); xs.push(v, 1/v, Math.sin(v), Math.sqrt(v), Math.pow(v, 0.37), Math.atan2(v, i+1), Math.exp(-v/50), Math.log(v+1), Math.cbrt(v), Math.tanh(v/100)); }
+print('d-numbers', xs.map(function(x){ return x.toString(); }).join(' '));
+print('d-numbers2', xs.slice(0,20).map(function(x){ return x.toPrecision(17)+'/'+x.toString(2).length+'/'+x.toExponential(3); }).join(' '));
+"# },
 ];
 
 /// Replaces `$A/$B/$C` and wraps the kernel in its own function scope.
